@@ -46,6 +46,23 @@ check("C08", "exploration",
   "Hostile blocks (1-20 txs) against the real executor in child processes: the whole BVM dispatch surface enumerated by reflection (~570 methods) with well-typed / type-confused / wrong-arity vectors, malformed IBTPs, byte-mutated payloads, structural oddities, bad signatures, proofs rejected by WASM rule doubles (false / trap / fuel burn), serial and parallel proof verification. Oracle: process alive, ExecutedEvent within the watchdog, one receipt per tx in order, height+1. A dead worker is a violation attributed to the block logged before it died.",
   "Inputs beyond the generators (EVM bytecode, >5 KB strings) are not driven; watchdog 120 s per block (parked executor = wedged, else inconclusive).", "runtime monitoring: crash/wedge/receipt-count oracle over structure-aware and mutational fuzz blocks in child processes", "DESIGN.md §5 C08")
 
+check("C01", "exploration",
+  "One history from genesis (fixture + 24-33 mixed blocks of every transaction kind incl. 3-5-child groups, governance, XVM, hostile txs) is executed by the generating replica and replayed in separate OS processes: plain, perturbed schedule (sleep hooks in signature/proof goroutines and persist writers, GOMAXPROCS=2), stop/reopen in-process and as new processes right after genesis and at PRNG heights, and K repeats (fresh map orders). Block hash, all roots, every marshalled receipt, the canonical InterchainMeta (list order preserved) at every height and the final state store must be identical; on divergence the differing state keys are extracted by re-running with state dumps. Race detector on: a race whose two accesses are in executor/ledger/vm/proof code is a violation.",
+  "All replicas run one binary on one machine; map orders / schedules the runtime does not produce in the sample are out of reach; undo-journal records (account order inside a block journal) are excluded from the dump comparison because the property does not name them.",
+  "runtime monitoring: differential execution of one recorded history across processes, schedules, restarts and repeats + Go race detector", "DESIGN.md §5 C01")
+check("C07", "exploration",
+  "Differential oracle on the real executor: every generated block that produced a FAILED receipt is re-run on a copy of its pre-state with each failed tx replaced by a null failure of the same sender and nonce; the resulting state stores must agree except for the balances of those senders and the admins; no failed tx may be listed in a delivery set; read-only execution of state-writing calls must leave state store, chain store and chain meta byte-identical. Failure causes driven: contract errors before/after writes, contract panics, rejected proofs, bad signatures, fee failure after the contract wrote (pauper), fuel exhaustion, IBTP failures.",
+  "Failure points the generators do not reach inside a contract are out of reach; blocks whose surviving txs depend on a failed sender's balance are counted as undecided; EVM out-of-gas not driven.",
+  "runtime monitoring: differential (null-failure substitution) state comparison per block + view idempotence oracle", "DESIGN.md §5 C07")
+check("C09", "exploration",
+  "Chains built from genesis with generated blocks (empty, 60-200 look-alike txs, interchain-heavy) are audited height by height with independently recomputed Merkle roots and every index; then rolled back (Ledger.Rollback or the executor's own path), audited for stale lookups, re-executed or continued differently, and audited again, three rounds per case.",
+  "pb.BlockHeader.Hash/Receipt.Hash define the covered fields (trusted library); cbergoon/merkletree is the trusted Merkle implementation (same library as the target, but fed by the harness from stored data).",
+  "runtime monitoring: structural audit of the stored chain at quiescent points + stale-lookup oracle after rollback", "DESIGN.md §5 C09")
+check("C14", "exploration",
+  "Global conservation monitor (sum of all account records <= before + grants, no negative balance) after every block of mixed histories with 1-7 admins and gas prices {0,1,7,50000,1000003}, plus exact per-account deltas for single-transfer blocks over hostile amounts, senders and receivers.",
+  "EVM value transfers are not BitXHub-native and not driven; admin grants are recognised from role status queries.",
+  "runtime monitoring: conservation invariant over state-store balances at block boundaries + per-transfer delta oracle", "DESIGN.md §5 C14")
+
 ALL = [f"C{i:02d}" for i in range(1, 21)]
 REASON_PENDING = "check not built yet in this round; see DESIGN.md §5 for the planned monitor (no claim is made until the check runs clean on the unchanged tree)"
 
